@@ -12,6 +12,7 @@
 import EasyNet.Lemmas.LifeA
 import EasyNet.Lemmas.LifeAProg
 import EasyNet.Lemmas.LifeS
+import EasyNet.Lemmas.Listener
 namespace EasyNet
 open EasyNet.Life
 set_option linter.unusedVariables false
@@ -320,5 +321,39 @@ example :
       fun s => ((s.cs 1).pc, (s.cs 2).pc, (s.cs 3).pc, s.g.tasks, (A.advStep 0 0 s.g (s.cs 0)).isSome)) =
       some (.cTasks true, .cLock, .dWait 1, .dying, true) := by
   decide +kernel
+
+/-- **C18, a stopped server can serve again: the listener's "accept in progress" marker.**  `shutdown()` does not close the
+    listeners (the next `serve_forever()` reuses them): it cancels the task that sits in `ListenerSocketAdapter.raw_accept()`.
+    For EVERY history of accept calls, accept results (connections, capacity errors with their 100 ms back-off, ignorable and
+    other errors), external cancellations landing in `sock_accept()` or in the back-off sleep, and closes: the marker is set
+    exactly while a task is inside `raw_accept()`; hence whenever none is (the server was stopped, however the accept ended),
+    the next `raw_accept()` of an open listener starts a new accept — it never answers EBUSY — and the one of a closed
+    listener answers EBADF. -/
+theorem C18_listener_restartable (es : List Lsn.Ev) :
+    ((Lsn.run Lsn.St.init es).marker = true ↔ (Lsn.run Lsn.St.init es).apc ≠ .idle) ∧
+    ((Lsn.run Lsn.St.init es).apc = .idle → (Lsn.run Lsn.St.init es).sockRef = true →
+      Lsn.step (Lsn.run Lsn.St.init es) .acceptCall = some ((Lsn.run Lsn.St.init es).enterScope .accept, none)) ∧
+    ((Lsn.run Lsn.St.init es).apc = .idle → (Lsn.run Lsn.St.init es).sockRef = false →
+      Lsn.step (Lsn.run Lsn.St.init es) .acceptCall = some (Lsn.run Lsn.St.init es, some .ebadf)) := by
+  have h := Lsn.Inv.init.run es rfl
+  generalize Lsn.run Lsn.St.init es = s at h
+  obtain ⟨h1, _, _, _, _⟩ := h
+  refine ⟨h1, ?_, ?_⟩
+  · intro hi hr
+    have hm : s.marker = false := by
+      cases hmk : s.marker with
+      | false => rfl
+      | true => exact absurd hi (h1.mp hmk)
+    simp [Lsn.step, hi, hm, hr]
+  · intro hi hr
+    have hm : s.marker = false := by
+      cases hmk : s.marker with
+      | false => rfl
+      | true => exact absurd hi (h1.mp hmk)
+    simp [Lsn.step, hi, hm, hr]
+
+/-- non-vacuity: accept fails with a capacity error, the shutdown lands in the back-off, the next serve accepts again -/
+example : Lsn.trace Lsn.St.init [.acceptCall, .acceptDone .capacity, .extCancel, .acceptCall, .acceptDone .ok] =
+    [none, none, some .acceptCancelled, none, some .accepted] := by decide +kernel
 
 end EasyNet
